@@ -1,0 +1,20 @@
+//go:build verif
+
+/*
+AnyType Library for Go
+Verification hook (build tag verif): yield points in the asynchronous functions
+*/
+
+package anytype
+
+/*
+VerifPoint, when set, is called at the named sites of ForEachAsync and MapAsync.
+A harness uses it to delay the caller or a worker there. It has to be set before the first asynchronous call.
+*/
+var VerifPoint func(site string)
+
+func verifPoint(site string) {
+	if VerifPoint != nil {
+		VerifPoint(site)
+	}
+}
